@@ -76,6 +76,21 @@ CLAIMED.update({
         technique='CrossHair symbolic execution of the real lexer/assembler with PEP-316 contracts (per-condition confirmation), plus symx/z3 product queries for operand syntax'),
 })
 
+CLAIMED.update({
+    'C14': dict(
+        text='Include trees of depth 2 and 3 over a virtual file system: the included file may exist in any subset of four directories (symbolic bits), the working directory and the -i option are symbolic, an operand inside the files is symbolic. Every path\'s result (bytes, labels, constants) must equal the textually spliced program of a legitimately found candidate, for every working directory; include_bytes settings likewise.',
+        note='Trusted: z3, stubs (virtual os / open). Precedence between -i and the adjacent directory is left open, as in the property. Bound: the two trees.',
+        ref='6 C14'),
+    'C15': dict(
+        text='62 faulty lines (out-of-range operands with the value symbolic over everything outside the legal set, unknown registers, undefined labels/constants, malformed and non-integer expressions, error directive, missing include files) planted at several positions of a valid program, in an included file, in both modes, with the other operands symbolic: every refusing path must raise AssemblerError carrying exactly that file and line.',
+        note='Trusted: z3, stubs. A program that is not refused carries no obligation. Bound: the fault list and placements in evidence.',
+        ref='6 C15'),
+    'C16': dict(
+        text='Frame condition (one inductive step): after every path of assemble() on symbolic programs (failing paths included) a structural fingerprint of everything reachable from the module is unchanged and contains no symbolic value. Two-call products: the second call\'s result equals the result of the second program alone for all values of both programs\' symbols, also when the first call fails or received the caller\'s dictionaries.',
+        note='Trusted: the fingerprint walks dicts, lists, partials, class dicts, function defaults and closures; z3; stubs. PYTHONHASHSEED independence is NOT claimed.',
+        ref='6 C16'),
+})
+
 NOT_YET = {}
 
 
